@@ -828,6 +828,7 @@ var _ rpc.Resources
 //@   requires s != nil && rcb != nil
 //@   ensures[C07] old(rcb.loading) == 0 ==> invoked() == old(invoked()) + 1
 //@   ensures[C07] old(rcb.loading) != 0 ==> invoked() == old(invoked()) && (forall x *Subscription :: x.state == old(x.state) && x.queueFlag == old(x.queueFlag)) && wsframes == old(wsframes)
+//@   ensures[C07] old(rcb.loading) != 0 ==> rcb.loading == old(rcb.loading)
 //@   safety[C15]
 
 // doneLoading: the subscription becomes ready, forgets its waiting countdowns and its throttle
@@ -983,7 +984,7 @@ var _ rpc.Resources
 //@   requires s != nil && s.c != nil && predConnOK(s.c.(*wsConn)) && (err == nil ==> resourceSub != nil && resourceSub.e != nil && resourceSub.e.cache != nil)
 //@   ensures[C11] err == nil && old(s.state) == stateDisposed ==> callcount("Unsubscribe") == old(callcount("Unsubscribe")) + 1 && s.resourceSub == old(s.resourceSub) && s.state == stateDisposed
 //@   ensures[C11] err == nil && old(s.state) != stateDisposed ==> callcount("Unsubscribe") == old(callcount("Unsubscribe"))
-//@   loop 1 assume rcb != nil && rcb.refMap != nil
+//@   loop 1 assume rcb != nil && rcb.refMap != nil && rcb.loading >= 1
 //@   safety[C15]
 
 // retryStaleAccess: without the stale mark nothing happens; with it the mark is cleared, the
@@ -1026,10 +1027,15 @@ var _ rpc.Resources
 
 // collectRefs: the countdown is handed to every reference that is neither ready nor already part
 // of it, then counted down once for this resource and tested once.
+// While the countdown is handed on, this resource's own unit stays in it: the count cannot reach
+// zero - and the request cannot be answered - inside the loop, whatever state the references
+// are in; the unit is given back once, after the loop, right before the one test.
 //@ func (*Subscription).collectRefs
-//@   requires s != nil && rcb != nil && rcb.refMap != nil
+//@   requires s != nil && rcb != nil && rcb.refMap != nil && rcb.loading >= 1
 //@   assumes predRefsOK()
 //@   ensures[C07] callcount("testReady") == old(callcount("testReady")) + 1
+//@   ensures[C07] old(rcb.loading) >= 2 ==> rcb.loading >= old(rcb.loading) - 1 && invoked() == old(invoked())
+//@   loop 1 invariant[C07] rcb.loading >= old(rcb.loading) && invoked() == old(invoked())
 //@   assert[C07] ref.sub.onLoaded#1: arg0 == rcb && ref.sub.state < stateReady && !(has(rcb.refMap, rid) && rcb.refMap[rid])
 //@   assert[C07] s.testReady#1: arg0 == rcb
 //@   safety[C15]
@@ -1041,8 +1047,9 @@ var _ rpc.Resources
 // for); a resource that is not loaded yet keeps the countdown in its waiting list, a loaded one
 // passes it on to its references at once.
 //@ func (*Subscription).onLoaded
-//@   requires s != nil && rcb != nil && rcb.refMap != nil
+//@   requires s != nil && rcb != nil && rcb.refMap != nil && rcb.loading >= 0
 //@   assumes predRefsOK()
+//@   ensures[C07] old(rcb.loading) >= 1 ==> rcb.loading >= old(rcb.loading) && invoked() == old(invoked())
 //@   ensures[C07] old(s.state) < stateLoaded ==> rcb.loading == old(rcb.loading) + 1 && has(rcb.refMap, s.rid) && rcb.refMap[s.rid] &&
 //@       len(s.readyCallbacks) == old(len(s.readyCallbacks)) + 1 && s.readyCallbacks[len(s.readyCallbacks)-1] == rcb &&
 //@       (forall k int :: 0 <= k && k < old(len(s.readyCallbacks)) ==> s.readyCallbacks[k] == old(s.readyCallbacks[k])) &&
